@@ -19,8 +19,11 @@ IsBlank(c) == c \in Blank_
 IsNl(c) == c = "\n"
 Spc(n) == [k \in 1..n |-> " "]
 HexD == <<"0", "1", "2", "3", "4", "5", "6", "7", "8", "9", "a", "b", "c", "d", "e", "f">>
-RECURSIVE HexN(_, _)
+HexU == <<"0", "1", "2", "3", "4", "5", "6", "7", "8", "9", "A", "B", "C", "D", "E", "F">>
+RECURSIVE HexN(_, _), HexNU(_, _)
 HexN(v, n) == IF n = 0 THEN <<>> ELSE HexN(v \div 16, n - 1) \o <<HexD[(v % 16) + 1]>>
+\* hexadecimal digits are case-insensitive: \x escapes are written in lower case, \u and \U escapes in upper case
+HexNU(v, n) == IF n = 0 THEN <<>> ELSE HexNU(v \div 16, n - 1) \o <<HexU[(v % 16) + 1]>>
 
 \* the target alphabet and the code point of each character (for hex escapes)
 Ascii == <<" ", "!", "\"", "#", "$", "%", "&", "'", "(", ")", "*", "+", ",", "-", ".", "/", "0", "1", "2", "3", "4", "5", "6", "7", "8", "9", ":", ";", "<", "=", ">", "?", "@", "A", "B", "C", "D", "E", "F", "G", "H", "I", "J", "K", "L", "M", "N", "O", "P", "Q", "R", "S", "T", "U", "V", "W", "X", "Y", "Z", "[", "\\", "]", "^", "_", "`", "a", "b", "c", "d", "e", "f", "g", "h", "i", "j", "k", "l", "m", "n", "o", "p", "q", "r", "s", "t", "u", "v", "w", "x", "y", "z", "{", "|", "}", "~">>
@@ -110,8 +113,8 @@ Esc(c, form) ==
   IF form = 1 /\ Short(c) # <<>> THEN Short(c)
   ELSE IF form = 4 /\ c = "\t" THEN <<"\\", "\t">>                   \* the second short form of a tab: backslash, literal tab
   ELSE IF form <= 2 /\ v < 256 THEN <<"\\", "x">> \o HexN(v, 2)
-  ELSE IF form <= 3 /\ v < 65536 THEN <<"\\", "u">> \o HexN(v, 4)
-  ELSE <<"\\", "U">> \o HexN(v, 8)
+  ELSE IF form <= 3 /\ v < 65536 THEN <<"\\", "u">> \o HexNU(v, 4)
+  ELSE <<"\\", "U">> \o HexNU(v, 8)
 MustEscapeDQ(c) == c \in {"\"", "\\"} \/ ~Printable(c)
 
 \* body of the presentation from position i (ch[i]: 0 literal / as real breaks, 1.. see above; multi = line breaks allowed)
